@@ -280,5 +280,78 @@ example :
     (cleanContent E cfg {} ⟨["password".toList], true, some [("beta".toList, 1), ("alpha".toList, 1)], ls⟩).2 = ls := by
   decide
 
+/-! ### the file entry point: `clean_file` = read, `clean_content`, replace the whole content -/
+
+theorem readlinesGo_flatten (txt cur : Str) : (readlinesGo txt cur).flatten = cur.reverse ++ txt := by
+  induction txt generalizing cur with
+  | nil => cases cur <;> simp [readlinesGo]
+  | cons c cs ih =>
+    simp only [readlinesGo]
+    split
+    · simp [ih]
+    · rw [ih]; simp
+
+/-- reading loses nothing: the lines `readlines` hands over, put together again, are the file -/
+theorem readlines_flatten (txt : Str) : (readlines txt).flatten = txt := by
+  simp [readlines, readlinesGo_flatten]
+
+theorem readlines_ne_nil (txt : Str) (h : txt ≠ []) : readlines txt ≠ [] := by
+  intro e
+  have := readlines_flatten txt
+  rw [e] at this
+  exact h (by simpa using this.symm)
+
+/-- **cleanFile_is_cleanContent** — for a non-empty regular file, what is at the path after `clean_file` is decided by
+`clean_content` on the lines read from it and by nothing else: the file holds EXACTLY the concatenation of the cleaned
+lines (whole content replaced: no byte of the old text survives behind it), or is gone when nothing is left; the
+cleaner's state is the one `clean_content` leaves -/
+theorem cleanFile_is_cleanContent (E : Env) (cfg : Cfg) (st : St) (call : Call) (txt : Str) (h : txt ≠ []) :
+    cleanFile E cfg st call (.file txt) =
+      ((cleanContent E cfg st { call with lines := readlines txt }).1,
+       if (cleanContent E cfg st { call with lines := readlines txt }).2.isEmpty then FileSt.absent
+       else FileSt.file (cleanContent E cfg st { call with lines := readlines txt }).2.flatten) := by
+  have hr : (readlines txt).isEmpty = false := by
+    cases hx : readlines txt with
+    | nil => exact absurd hx (readlines_ne_nil txt h)
+    | cons a b => rfl
+  simp only [cleanFile, hr]
+  by_cases he : (cleanContent E cfg st { call with lines := readlines txt }).2.isEmpty = true
+  · simp [he]
+  · simp [he]
+
+/-- nothing there, a symbolic link, an empty file: left exactly as they are, the cleaner is not even consulted for the
+first two -/
+theorem cleanFile_untouched (E : Env) (cfg : Cfg) (st : St) (call : Call) :
+    cleanFile E cfg st call .absent = (st, .absent) ∧ cleanFile E cfg st call .link = (st, .link) ∧
+    (cleanFile E cfg st call (.file [])).2 = .file [] := by
+  refine ⟨rfl, rfl, ?_⟩
+  simp [cleanFile, readlines, readlinesGo]
+
+/-- every line stored by `clean_file` derives from exactly one line of the file, in the original order
+(`clean_monotone` carried over to the file) -/
+theorem cleanFile_monotone (E : Env) (cfg : Cfg) (st : St) (call : Call) (txt new : Str)
+    (hf : (cleanFile E cfg st call (.file txt)).2 = .file new) (h : txt ≠ []) :
+    ∃ (idx : List Nat) (out : List Str), idx.Pairwise (· < ·) ∧ (∀ i ∈ idx, i < (readlines txt).length) ∧
+      idx.map (fun i => ((readlines txt)[i]?).bind (fun l =>
+        (cleanLine E cfg { call with lines := readlines txt }
+          (stateBefore E cfg st { call with lines := readlines txt } i) l).2)) = out.map some ∧
+      new = out.flatten := by
+  rw [cleanFile_is_cleanContent E cfg st call txt h] at hf
+  obtain ⟨idx, hp, hb, hm⟩ := clean_monotone E cfg st { call with lines := readlines txt }
+  refine ⟨idx, (cleanContent E cfg st { call with lines := readlines txt }).2, hp, hb, hm, ?_⟩
+  simp only at hf
+  split at hf
+  · cases hf
+  · cases hf; rfl
+
+/-- three lines, the middle one redacted, no trailing newline, a long keyword replaced by a shorter substitute: the
+new file is shorter than the old one and holds nothing but the two cleaned lines -/
+example :
+    let E : Env := ⟨fun _ => [], fun _ => [], fun _ => [], fun _ => false, fun _ => [], fun _ => false, fun _ => [], id, {}⟩
+    let cfg : Cfg := ⟨"h.d".toList, false, false, false, false, ["averylongkeyword".toList], ["DROP".toList]⟩
+    (cleanFile E cfg {} ⟨["password".toList], false, none, []⟩ (.file "a averylongkeyword\nDROP me\nlast".toList)).2 =
+      .file "a keyword0\nlast".toList := by
+  decide
+
 end IV.CleanState
 
